@@ -1,4 +1,5 @@
 import Gtree.Lemmas.EntryFacts
+import Gtree.Lemmas.HeapCompose
 import Gtree.Lemmas.HeapMkdir
 import Gtree.Lemmas.SourceRefines
 import Gtree.Model.Api
@@ -253,4 +254,24 @@ theorem C06_mkdirer_is_the_source (dm : SrcH.defaultMkdirerSimple) (h : SrcH.Hea
       some ((mkdirRoots fs dm.targetDir dm.fileConsiderer.extensions (SrcH.rootVisits h ts rs)).1,
             SrcH.mkErrSrc (mkdirRoots fs dm.targetDir dm.fileConsiderer.extensions (SrcH.rootVisits h ts rs)).2) :=
   SrcH.mkdir_heap dm h ts fs rs fuel hr hf
+end Gtree
+
+namespace Gtree
+/-- The translated pieces composed as `treeSimple.mkdir` composes them (grow with validation, then mkdir, on the same nodes;
+    heap mode, regenerated on every run) ARE the model's `mkdirRootsApi` (real run): for every heap that holds a forest
+    (all pointers different), every file system, target, extension list and every fuel above `2·size + 1` — an invalid
+    name anywhere in the forest is returned by the grower (so the mkdirer is not reached and nothing is created);
+    otherwise the mkdirer performs the model's `mkdirRoots` on the model's `growRoot` visits of every root.  The
+    exactness, confinement and dry-run theorems about `mkdirRootsApi` are theorems about this composition; what is
+    hand-written in between is the three-line body of `treeSimple.mkdir` (generate, grow, mkdir with early returns). -/
+theorem C06_mkdir_path_is_the_model (dg : SrcH.defaultGrowerSimple) (dm : SrcH.defaultMkdirerSimple) (ts : List T) (h : SrcH.Heap) (fs : FS)
+    (rs : List Go.Ptr) (fuel : Nat) (hv : dg.enabledValidation = true)
+    (hr : SrcH.ReprRoots h ts rs) (hnd : (SrcH.ptrsKids h ts rs).Nodup) (hf : 2 * sizeList ts + 1 ≤ fuel) :
+    ∃ h', SrcH.defaultGrowerSimple.grow fuel h dg rs =
+        some (h', (validateVisits (ts.map (growRoot (SrcH.fmtOf dg))).flatten).map verrSrc) ∧
+      (validateVisits (ts.map (growRoot (SrcH.fmtOf dg))).flatten = none →
+        SrcH.defaultMkdirerSimple.mkdir fuel h' fs dm rs =
+          some ((mkdirRoots fs dm.targetDir dm.fileConsiderer.extensions (ts.map (growRoot (SrcH.fmtOf dg)))).1,
+                SrcH.mkErrSrc (mkdirRoots fs dm.targetDir dm.fileConsiderer.extensions (ts.map (growRoot (SrcH.fmtOf dg)))).2)) :=
+  SrcH.grow_then_mkdir dg dm ts h fs rs fuel hv hr hnd hf
 end Gtree
